@@ -84,7 +84,7 @@ LED_COLOR_ORANGE = 0x05
 LED_COLOR_WHITE = 0x06
 
 LED_FUNCTION_OFF = 0x00
-LED_FUNCTION_BLINKING_RANGE = list(range(0x01, 0xfa))
+LED_FUNCTION_BLINKING_RANGE = list(range(0x01, 0xfb))
 LED_FUNCTION_LAMP_TEST = 0xfb
 LED_FUNCTION_ON = 0xff
 
